@@ -364,6 +364,25 @@ fn one_w(ctx: &mut Ctx, x: &[u8], kind: Kind, dset: &[u32], desc: &str, pre: u8)
     }
 }
 
+/// One walk whose configuration and deletion set are drawn from `rng` (used by the coverage-guided tier).
+pub fn one_from_rng(ctx: &mut Ctx, rng: &mut Rng) {
+    let kinds = [Kind::Answer, Kind::Authority, Kind::AdditionalSkipOpt, Kind::AdditionalInclOpt, Kind::Question];
+    let opts = [OptAt::None, OptAt::First, OptAt::Middle, OptAt::Last];
+    let kind = *rng.pick(&kinds);
+    let n = if kind == Kind::Question { 1 } else { rng.range(0, 12) };
+    let fillers = [rng.below(4), rng.below(4), rng.below(4)];
+    let compressed = rng.chance(1, 2);
+    let opt = *rng.pick(&opts);
+    let x = build(kind, n, compressed, opt, fillers, rng);
+    let m = match refparse(&x, RELAXED) {
+        Ok(d) => d.msg,
+        Err(_) => return,
+    };
+    let ids = ids_of(&m, kind);
+    let dset: Vec<u32> = ids.iter().copied().filter(|_| rng.chance(1, 2)).collect();
+    one(ctx, &x, kind, &dset, &format!("{:?} n={} compressed={} opt={:?}", kind, ids.len(), compressed, opt));
+}
+
 pub fn run(ctx: &mut Ctx) {
     let nmax: usize = if ctx.tier == "thorough" { 11 } else { 7 };
     // enumerate (kind, compressed, opt, n) configurations; every subset of each
